@@ -283,6 +283,18 @@ class Check:
         return 1 if self.violations else 0
 
 
+def run_apalache(ws, module, args, timeout=900):
+    """apalache-mc check ... ; returns (ok, tail of output). Symbolic (SMT) check over unbounded integers."""
+    cmd = ['apalache-mc', 'check'] + list(args) + ['--out-dir=' + os.path.join(ws, 'apalache-out'), module + '.tla']
+    t0 = time.time()
+    try:
+        p = subprocess.run(cmd, cwd=ws, stdout=subprocess.PIPE, stderr=subprocess.STDOUT, timeout=timeout, text=True, errors='replace')
+    except (subprocess.TimeoutExpired, FileNotFoundError) as e:
+        raise MachineryError('apalache failed to run: %r' % (e,))
+    ok = p.returncode == 0 and 'The outcome is: NoError' in p.stdout
+    return ok, p.stdout[-1500:], time.time() - t0
+
+
 def parallel(jobs, max_workers=6):
     """Run independent callables concurrently (each typically one TLC process); returns results in order.
     A MachineryError in any job is re-raised."""
